@@ -222,6 +222,36 @@ def random_walks(graph, n, length, seed, start_pool=None, weight=None):
 # parallel driver
 
 _G = {}
+REPLAY = None     # set by `./check <id> --replay FILE`: {'labels': [[name, args-json], ...], 'init_state': json}
+
+
+def _replay_one(graph, factory, own):
+    """--replay mode: if the recorded history exists in this graph, execute exactly that history."""
+    want = [(n, json.dumps(a, sort_keys=True)) for n, a in REPLAY['labels']]
+    init_json = json.dumps(REPLAY.get('init_state'), sort_keys=True)
+    st = Stats()
+    for i in graph.init:
+        if REPLAY.get('init_state') is not None and json.dumps(tla.to_json(graph.states[i]), sort_keys=True) != init_json:
+            continue
+        cur, labels, ok = i, [], True
+        for n, aj in want:
+            nxt = [(nn, a, d) for (nn, a, d) in graph.out.get(cur, ()) if nn == n and json.dumps(tla.to_json(a), sort_keys=True) == aj]
+            if not nxt:
+                ok = False
+                break
+            labels.append((nxt[0][0], nxt[0][1]))
+            cur = nxt[0][2]
+        if not ok:
+            continue
+        REPLAY['done'] = True
+        v = walk(graph, factory(), labels, own, st, start=i)
+        print('REPLAY: %d steps executed on the real code: %s' % (len(labels), 'VIOLATION reproduced at step %s facets=%s' % (
+            v['failing_step'], v.get('facets')) if v else 'no divergence (the history now conforms)'))
+        if v:
+            st.n_violations += 1
+            st.violations.append(v)
+        break
+    return st
 
 
 def _worker(chunk):
@@ -246,6 +276,8 @@ def _worker(chunk):
 
 def run_paths(graph, factory, paths, own=None, procs=None, chunk=200, max_violations=50):
     """Replay an iterable of (labels, targets) in parallel; returns merged Stats."""
+    if REPLAY is not None:
+        return Stats() if REPLAY.get('done') else _replay_one(graph, factory, own)
     procs = procs or int(os.environ.get('VERIF_WORKERS') or min(16, os.cpu_count() or 4))
     _G['graph'], _G['factory'], _G['own'] = graph, factory, own
     total = Stats()
